@@ -107,6 +107,7 @@ CONFIGS = (
     dict(sessions=2, fail=0x98E),
     dict(sessions=0, session_tag=True),
     dict(sessions=5, decrypt=True, encrypt=True),
+    dict(sessions=3, decrypt=True, encrypt=True, flag_twice=True),
 )
 
 
